@@ -32,6 +32,19 @@ R = Run("C05", "units = 145 table symbols, prefixed/alias names, operator-built 
         "(thorough) / 1500 (quick); equality: all name pairs inside each dimension group up to "
         "400k (thorough) / 25k (quick) + pinned; simplify: 160 pinned + 20000/1500 random compounds")
 
+def _driver_error(tp, val, tb):
+    """an unexpected error of the driver becomes a note; the JSON line is still printed"""
+    import traceback
+    R.notes.append("driver error: %r %s" % (val, "".join(traceback.format_tb(tb))[-400:]))
+    try:
+        R.finish()
+    except SystemExit:
+        sys.stdout.flush()
+        os._exit(0)
+
+
+sys.excepthook = _driver_error
+
 _seen = {}
 
 
